@@ -18,6 +18,7 @@ import (
 	"errors"
 	"os"
 	"strings"
+	"sync"
 	"time"
 
 	"github.com/bwmarrin/snowflake"
@@ -110,9 +111,33 @@ func newTx(db *DB, writable bool) (tx *Tx, err error) {
 	return
 }
 
+var (
+	txIDNodesMu sync.Mutex
+	txIDNodes   = make(map[int64]*snowflake.Node)
+)
+
+// getTxIDNode returns the id generator of the given node number. One generator is shared by
+// all transactions of the process, so that ids issued within the same millisecond differ.
+func getTxIDNode(nodeNum int64) (*snowflake.Node, error) {
+	txIDNodesMu.Lock()
+	defer txIDNodesMu.Unlock()
+
+	if node, ok := txIDNodes[nodeNum]; ok {
+		return node, nil
+	}
+
+	node, err := snowflake.NewNode(nodeNum)
+	if err != nil {
+		return nil, err
+	}
+	txIDNodes[nodeNum] = node
+
+	return node, nil
+}
+
 // getTxID returns the tx id.
 func (tx *Tx) getTxID() (id uint64, err error) {
-	node, err := snowflake.NewNode(tx.db.opt.NodeNum)
+	node, err := getTxIDNode(tx.db.opt.NodeNum)
 	if err != nil {
 		return 0, err
 	}
